@@ -52,11 +52,14 @@ func regServices() []ServiceSpec {
 	}
 	// B.m1 is also bound to GET on the path A.m2 answers POST on: two services of different backends share a leaf, each
 	// under its own verb
-	bm1 := more(body("/g/b/{s}:go"), "/g/b2/{s}")
+	bm1 := more(body("/g/b/{s}:go"), "/g/b2/{s}", "/g/v/{s=bb/*}")
 	bm1.AdditionalBindings = append(bm1.AdditionalBindings, httpRule("GET", "/g/a/m2"))
 	return []ServiceSpec{
-		{Pkg: "vg", Name: "A", Methods: []MethodSpec{{Name: "m1", Rule: more(body("/g/a/m1/{s}"), "/g/a/alt/{s}")}, {Name: "m2", Rule: more(body("/g/a/m2"), "/g/a2/m2", "/g/a3/{s}/m2")}}},
-		{Pkg: "vg", Name: "B", Methods: []MethodSpec{{Name: "m1", Rule: bm1}, {Name: "m2", Rule: body("/g/a/m1/{s}/b")}}},
+		// (below /g/v four variable edges with different patterns, owned alternately by A and B - dropping one service
+		// must not disturb its siblings, whatever their order; A.m2 and B.m2 have a binding nested below their primary one)
+		{Pkg: "vg", Name: "A", Methods: []MethodSpec{{Name: "m1", Rule: more(body("/g/a/m1/{s}"), "/g/a/alt/{s}", "/g/v/{s=aa/*}")},
+			{Name: "m2", Rule: more(body("/g/a/m2"), "/g/a2/m2", "/g/a3/{s}/m2", "/g/v/{s=cc/*}/tail", "/g/a/m2/{s}/deep")}}},
+		{Pkg: "vg", Name: "B", Methods: []MethodSpec{{Name: "m1", Rule: bm1}, {Name: "m2", Rule: more(body("/g/a/m1/{s}/b"), "/g/v/{s=dd/*}", "/g/a/m1/{s}/b/{t}/deeper")}}},
 	}
 }
 
@@ -164,9 +167,10 @@ var regMethods = []struct {
 	name, full, path string
 	extras           []string // request paths of the additional bindings
 }{
-	{"A.m1", "/vg.A/m1", "/g/a/m1/x", []string{"/g/a/alt/x"}}, {"A.m2", "/vg.A/m2", "/g/a/m2", []string{"/g/a2/m2", "/g/a3/x/m2"}},
-	{"B.m1", "/vg.B/m1", "/g/b/x:go", []string{"/g/b2/x", "GET /g/a/m2"}},
-	{"B.m2", "/vg.B/m2", "/g/a/m1/x/b", nil},
+	{"A.m1", "/vg.A/m1", "/g/a/m1/x", []string{"/g/a/alt/x", "/g/v/aa/1"}},
+	{"A.m2", "/vg.A/m2", "/g/a/m2", []string{"/g/a2/m2", "/g/a3/x/m2", "/g/v/cc/1/tail", "/g/a/m2/x/deep"}},
+	{"B.m1", "/vg.B/m1", "/g/b/x:go", []string{"/g/b2/x", "/g/v/bb/1", "GET /g/a/m2"}},
+	{"B.m2", "/vg.B/m2", "/g/a/m1/x/b", []string{"/g/v/dd/1", "/g/a/m1/x/b/y/deeper"}},
 }
 
 // what each backend of the scenario serves (must agree with Registry_Hist.tla)
@@ -321,7 +325,25 @@ func (w *regWorld) close() {
 	}
 }
 
+// apply runs one registration call under a watchdog: a call that does not come back (a lock left behind by an earlier
+// call, say) is reported as a crash of that call instead of wedging the driver.
 func (w *regWorld) apply(op RegOp, caseID int) OpEv {
+	ch := make(chan OpEv, 1)
+	go func() { ch <- w.applyInner(op, caseID) }()
+	select {
+	case ev := <-ch:
+		return ev
+	case <-time.After(15 * time.Second):
+		atomic.AddInt32(&regHangs, 1)
+		return OpEv{Ev: "Op", Case: caseID, Op: op.Op, B: op.B, Crash: "hang: the call did not return within 15 s", Immut: true, CurSame: true}
+	}
+}
+
+// regHangs counts the calls the watchdog gave up on; after a few of them the remaining histories are not replayed (each
+// would wait for its own watchdog) - the hangs already recorded decide the run.
+var regHangs int32
+
+func (w *regWorld) applyInner(op RegOp, caseID int) OpEv {
 	ev := OpEv{Ev: "Op", Case: caseID, Op: op.Op, B: op.B}
 	before := larking.VerifSnapshot(w.mux)
 	fpBefore := larking.VerifFingerprint(before)
@@ -389,6 +411,9 @@ func (w *regWorld) apply(op RegOp, caseID int) OpEv {
 
 func runRegHist(h RegHist, backends map[string]*backend, tries int) []interface{} {
 	evs := []interface{}{map[string]interface{}{"ev": "Hist", "case": h.ID}}
+	if atomic.LoadInt32(&regHangs) >= 4 {
+		return evs
+	}
 	w, err := newRegWorld(backends)
 	if err != nil {
 		return append(evs, OpEv{Ev: "Op", Case: h.ID, Op: "setup", Crash: "setup: " + err.Error()})
@@ -559,6 +584,9 @@ func regStressMain(args []string) error {
 			regMu.Lock()
 			regs = append(regs, StressRegEv{Ev: "RegOp", W: name, Op: op.Op, B: op.B, OK: oe.OK, S: s, E: e, Crash: oe.Crash})
 			regMu.Unlock()
+			if strings.HasPrefix(oe.Crash, "hang") {
+				return // the registration lock is gone for good
+			}
 			if oe.OK {
 				switch op.Op {
 				case "reglocal":
